@@ -8,7 +8,7 @@ EXTENDS CoinN, TLC
 CONSTANTS P, Q, Gg, Hh, N, T,
           Strict,     \* FALSE: negative control (a missing answer does not disqualify)
           Mode,       \* "byz" | "tamper"
-          DevC        \* constant coefficients of the deviating party's share polynomial
+          HonP, DevP  \* share polynomials of party 0 and of the deviating party
 VARIABLES W, rd, r1, r2, r3, r4
 mvars == <<W, rd, r1, r2, r3, r4>>
 
@@ -16,6 +16,8 @@ Grp == [p |-> P, q |-> Q, g |-> Gg, h |-> Hh]
 ASSUME GoodGroup(Grp) /\ N < Q /\ 2 * T < N
 
 Coefs == [1..(T + 1) -> 0..(Q - 1)]
+PolysAll == Coefs
+PolysConst == {f \in Coefs : \A k \in 2..(T + 1) : f[k] = 1}       \* every constant term, fixed higher coefficients
 FixC(j) == [k \in 1..(T + 1) |-> (j + k) % Q]
 FixH(j) == [k \in 1..(T + 1) |-> (3 * j + k + 1) % Q]
 HonestDev == [byz |-> FALSE, commit |-> TRUE, sd |-> [l \in 1..N |-> 0], complain |-> {}, answer |-> "true",
@@ -36,7 +38,7 @@ World(c0, cd, d) ==
 Init == W = 0 /\ rd = 0 /\ r1 = 0 /\ r2 = 0 /\ r3 = 0 /\ r4 = 0
 Next ==
   \/ /\ rd = 0
-     /\ \E c0 \in Coefs, cd \in {f \in Coefs : f[1] \in DevC}, d \in Devs : W' = World(c0, cd, d)
+     /\ \E c0 \in HonP, cd \in DevP, d \in Devs : W' = World(c0, cd, d)
      /\ rd' = 1 /\ r1' = Round1(W') /\ UNCHANGED <<r2, r3, r4>>
   \/ /\ rd = 1 /\ r2' = Round2(W, r1) /\ rd' = 2 /\ UNCHANGED <<W, r1, r3, r4>>
   \/ /\ rd = 2 /\ r3' = Round3(W, r1, r2, Strict) /\ rd' = 3 /\ UNCHANGED <<W, r1, r2, r4>>
